@@ -8,4 +8,4 @@ Separate Extraction
   BinInt.Z.eqb BinInt.Z.ltb BinInt.Z.leb BinInt.Z.of_nat BinInt.Z.to_nat BinInt.Z.of_N BinInt.Z.to_N
   PlaceModel.picture PlaceModel.fast_argb PlaceModel.fast_root_has_alpha PlaceModel.fast_lossy_has_alpha
   PlaceModel.fast_extract_alpha PlaceModel.fast_cleanup_copy PlaceModel.fast_sharp_rgb
-  PlaceModel.fast_import_rows PlaceModel.fast_import_rows_serial PlaceModel.rgb_to_y.
+  PlaceModel.fast_import_rows PlaceModel.fast_import_rows_serial PlaceModel.rgb_to_y PlaceModel.gen_argb.
